@@ -225,13 +225,34 @@ def report(pid, tier, seed, m, sel, res, findings, cmd, t0, outdir):
             lines.append("  failed obligation: %s in %s: %s" % (f["clause"] or f.get("cost_id") or "built-in", f["fn"], f["msg"]))
     elif undecided or sel.get("undecided_functions") or masked:
         rc = 2
+        # bounded stand-in: code the verifier cannot decide on this tree is exercised with random histories on the
+        # real crate; only a concrete failing input labelled with this property upgrades "undecided" to a violation
+        cex = cex_search(pid, seed)
+        if cex:
+            rc = 1
+            rdir = os.environ.get("PQ_REPLAY_DIR", os.path.join(VERIF, "replays"))
+            os.makedirs(rdir, exist_ok=True)
+            rpath = os.path.join(rdir, "%s.replay.txt" % pid)
+            with open(rpath, "w") as fh:
+                fh.write("property: %s\nrepo_head: %s\n" % (pid, m.get("repo_head")))
+                fh.write("the deductive check is UNDECIDED on this tree (see the lines below); BOUNDED stand-in: random-history search on the real crate "
+                         "(8000 histories of at most 120 operations over at most 48 items, both queue kinds)\n")
+                for key, why in sel.get("undecided_functions", []):
+                    fh.write("  undecided: function %s (%s)\n" % (key, why))
+                for f in (masked + undecided)[:10]:
+                    fh.write("  undecided: %s in %s\n" % (f["msg"], f["fn"]))
+                fh.write("\nfailing input found by harness/cex on the real code (debug build of the crate at %s):\n%s\n" % (os.environ.get("PQ_REPO", "/repo"), cex))
+            lines.append("VIOLATION property=%s replay=%s" % (pid, rpath))
+            lines.append("  (bounded stand-in: the verifier could not decide this tree; a failing history was found on the real code)")
+            extra["bounded_stand_in"] = "random-history search, 8000 histories <= 120 operations"
+        U = "UNDECIDED" if rc == 2 else "NOTE: deductive check undecided,"
         for f in masked[:10]:
-            lines.append("UNDECIDED property=%s: its obligations in %s may be masked by the failure of %s (%s), which the verifier assumes afterwards"
+            lines.append(U + " property=%s: its obligations in %s may be masked by the failure of %s (%s), which the verifier assumes afterwards"
                          % (pid, f["fn"], f["clause"] or "a built-in obligation", f["msg"]))
         for key, why in sel.get("undecided_functions", []):
-            lines.append("UNDECIDED property=%s: function %s could not be brought into the verifier's input (%s); its contract is assumed for callers" % (pid, key, why))
+            lines.append(U + " property=%s: function %s could not be brought into the verifier's input (%s); its contract is assumed for callers" % (pid, key, why))
         for f in undecided[:10]:
-            lines.append("UNDECIDED property=%s: %s in %s (%s)" % (pid, f["msg"], f["fn"], f["kind"]))
+            lines.append(U + " property=%s: %s in %s (%s)" % (pid, f["msg"], f["fn"], f["kind"]))
     for f in others[:5]:
         lines.append("NOTE: obligation of other properties %s fails in a shared function: %s (%s)" % (",".join(f["tags"]), f["clause"] or f["fn"], f["msg"]))
     for k in selected:
